@@ -1509,7 +1509,14 @@ func symMinMax(x, y value, isMax bool) value {
 	} else if yi, ok := y.(symI); ok {
 		k = yi.k
 	} else {
-		panic(unsupported("builtin min/max on symbolic non-integer"))
+		// float64: Go's builtin min/max: NaN if any operand is NaN; -0 < +0
+		x, y := toF(x), toF(y)
+		nan := "(or (fp.isNaN " + x + ") (fp.isNaN " + y + "))"
+		zeros := "(and (fp.isZero " + x + ") (fp.isZero " + y + "))"
+		if isMax {
+			return symF{"(ite " + nan + " " + fpNaN + " (ite " + zeros + " (ite (fp.isNegative " + x + ") " + y + " " + x + ") (ite (fp.gt " + x + " " + y + ") " + x + " " + y + ")))"}
+		}
+		return symF{"(ite " + nan + " " + fpNaN + " (ite " + zeros + " (ite (fp.isNegative " + x + ") " + x + " " + y + ") (ite (fp.lt " + x + " " + y + ") " + x + " " + y + ")))"}
 	}
 	a, b := toI(x, k), toI(y, k)
 	cmp := "bvslt"
